@@ -14,7 +14,7 @@ from .. import ref
 from ..lab import hi, make_odb, put_raw
 from ..world import World, digest_obj
 
-H = {1: ref.md5(b"v1"), 2: ref.md5(b"v2")}
+H = {1: ref.md5(b"v1"), 2: ref.md5(b"v2").upper()}   # (the second value is spelled in upper-case hex)
 
 POLICIES = {
     "default": None,
@@ -231,7 +231,7 @@ def _public_store(w, kind, keys, vals, alg="md5"):
     return odb, infos
 
 
-PKEYS = [("d-x", "y"), ("d", "c")]
+PKEYS = [("d-x", "y\\z"), ("d", "c")]   # (a name containing a backslash; "d-x/..." sorts before "d/..." as a string only)
 
 
 def public_one(odb, infos, a, o, t, pol, alg="md5"):
